@@ -98,6 +98,7 @@ func genBytes(t *rapid.T) Case {
 		}
 		c.Toks = append(c.Toks, Tok{S: "\n$$\n", N: 1})
 	}
+	c.Prior = genPrior(t, c.Opts)
 	return c
 }
 
@@ -126,6 +127,34 @@ var warmPool = []string{
 	"$$\na+b\n$$\n\n| a | b |\n|:-:|--:|\n| 1 | $x$ |\n\n$x$ text [spec][]\n\n[spec]: /s\n",
 	"> - [ ] task [ref]\n>\n> [ref]: /quoted\n\n```\n[spec]: /in-code\n",
 	"- item\n\n  $$\n  open\n\n[SPEC]: /upper\n[note]:\n  /nextline\n",
+}
+
+// genPrior: in about a third of the cases the Converter was constructed - and has converted its warm-up documents -
+// under options other than the ones passed to the judged call. Only fields NewConverter does not consume differ
+// (tables, task lists, TOC, TOC level): what GFM/footnotes/math mean for a converter constructed without them is
+// not stated anywhere. nil = one option set for everything.
+func genPrior(t *rapid.T, o Opts) *Opts {
+	if rapid.SampledFrom([]string{"same", "changed", "same"}).Draw(t, "priorclass") == "same" {
+		return nil
+	}
+	p := o
+	flip := func(name string, pct int) bool { return rapid.IntRange(1, 100).Draw(t, name) <= pct }
+	if flip("priortables", 60) {
+		p.Tables = !p.Tables
+	}
+	if flip("priortasklist", 40) {
+		p.TaskList = !p.TaskList
+	}
+	if flip("priortoc", 30) {
+		p.TOC = !p.TOC
+	}
+	if flip("priortocmax", 30) {
+		p.TOCMax = (p.TOCMax + rapid.IntRange(1, 9).Draw(t, "priortocshift")) % 10
+	}
+	if p == o {
+		p.Tables = !p.Tables
+	}
+	return &p
 }
 
 func genWarm(t *rapid.T) []string {
@@ -216,6 +245,27 @@ func (g *g) text(max int) Inl {
 	return x
 }
 
+// bare: an address as people type it, without angle brackets. With GFM it is an extended autolink (www., http://,
+// https:// and e-mail forms), without GFM plain text; either way the visible text is the address as written. Host
+// and path carry the running tag, so every address of a document is distinct.
+var bareMix = []string{"t", "t", "t", "bare", "t", "t", "t", "t", "t", "t", "t", "t"}
+
+func (g *g) bare() Inl {
+	h := strings.ToLower(g.tag("w"))
+	form := rapid.SampledFrom([]string{"www", "www", "www/path", "www/path", "http", "https", "mail"}).Draw(g.t, "bareform")
+	switch form {
+	case "www/path":
+		return Inl{K: "bare", S: "www." + h + ".test/docs/" + rapid.SampledFrom([]string{"a-b", "index.html", "q?x=1", "v2/"}).Draw(g.t, "barepath")}
+	case "http":
+		return Inl{K: "bare", S: "http://" + h + ".test/x"}
+	case "https":
+		return Inl{K: "bare", S: "https://" + h + ".test/"}
+	case "mail":
+		return Inl{K: "bare", S: h + "@mail.test"}
+	}
+	return Inl{K: "bare", S: "www." + h + ".test"}
+}
+
 func (g *g) codeSpan() Inl {
 	n := rapid.IntRange(1, 3).Draw(g.t, "ncode")
 	ws := make([]string, n)
@@ -280,6 +330,10 @@ func (g *g) span(k string, depth int, parentU bool) Inl {
 		}
 		return x
 	}
+	if k != "link" && rapid.SampledFrom(bareMix).Draw(g.t, "bareinspan") == "bare" {
+		x.C = []Inl{g.text(1), g.bare(), g.text(1)} // an address inside emphasis / strong / strike-through, words on both sides
+		return x
+	}
 	x.C = []Inl{g.text(3)}
 	return x
 }
@@ -318,6 +372,9 @@ func (g *g) inlines(ctx string, max int) []Inl {
 			}
 		}
 		k := rapid.SampledFrom(kinds).Draw(g.t, "inlkind")
+		if k == "t" && rapid.SampledFrom(bareMix).Draw(g.t, "bareaddr") == "bare" {
+			k = "bare" // an address written without angle brackets, in every context (GFM: an extended autolink)
+		}
 		if k == "math" && len(out) > 0 && out[len(out)-1].K == "math" {
 			k = "t" // "$a$ $b$": the inline math parser pairs the 2nd and 3rd dollar as well - ambiguous, keep text between formulas
 		}
@@ -342,6 +399,8 @@ func (g *g) inlines(ctx string, max int) []Inl {
 			out = append(out, Inl{K: "esc", S: rapid.SampledFrom([]string{"*", "_", "#", "[", "\\", "`", "!", "<"}).Draw(g.t, "escch")})
 		case "ent":
 			out = append(out, Inl{K: "ent", S: rapid.SampledFrom([]string{"amp", "lt", "copy", "#35", "#x41", "hearts"}).Draw(g.t, "entname")})
+		case "bare":
+			out = append(out, g.bare())
 		case "auto":
 			out = append(out, Inl{K: "auto", S: rapid.SampledFrom([]string{"http://a.test/x", "https://b.test/", "mailto:me@c.test"}).Draw(g.t, "autourl")})
 		default:
@@ -606,6 +665,7 @@ func genAST(t *rapid.T) Case {
 		c.Cls = "clean"
 	}
 	gg.o = c.Opts
+	c.Prior = genPrior(t, c.Opts)
 	n := gg.rare("nblocks", 1, kit.Scale(7, 12), nil, []int{13, 16, 20, 33, kit.Scale(33, 65)})
 	manyHeadings := n > 12 && gg.pct("manyheadings", 50) // a document with 10+ / 64+ headings (table of contents, bookmarks)
 	for i := 0; i < n; i++ {
